@@ -135,8 +135,16 @@ fn run_isg(out: &mut Out, r: &mut StdRng, n: usize) {
             grade_lower_bound: Grade::new(glo), grade_upper_bound: Grade::new(ghi), grade_bins: gb,
         };
         let p = model_path(v.file);
-        let interp = load_prediction_model("interp".to_string(), &p, mt, SpeedUnit::MilesPerHour, GradeUnit::Decimal, v.rate, None, None, None).expect("interp model");
-        let under = load_prediction_model("under".to_string(), &p, ModelType::Smartcore, SpeedUnit::MilesPerHour, GradeUnit::Decimal, v.rate, None, None, None).expect("underlying model");
+        // the unit the model's speed feature is declared in varies (interpolated and underlying model alike), and so - for
+        // electric rates - does the distance unit of the rate: speed unit and rate unit need not share a distance unit
+        let msu = [SpeedUnit::MilesPerHour, SpeedUnit::KilometersPerHour, SpeedUnit::MetersPerSecond][r.gen_range(0..3)];
+        let rate = if v.rate == EnergyRateUnit::KilowattHoursPerMile {
+            [EnergyRateUnit::KilowattHoursPerMile, EnergyRateUnit::KilowattHoursPerKilometer, EnergyRateUnit::KilowattHoursPerMeter][r.gen_range(0..3)]
+        } else {
+            v.rate
+        };
+        let interp = load_prediction_model("interp".to_string(), &p, mt, msu, GradeUnit::Decimal, rate, None, None, None).expect("interp model");
+        let under = load_prediction_model("under".to_string(), &p, ModelType::Smartcore, msu, GradeUnit::Decimal, rate, None, None, None).expect("underlying model");
         let sx = linspace(slo, shi, sb);
         let gx = linspace(glo, ghi, gb);
         for _ in 0..n {
@@ -174,9 +182,10 @@ fn run_isg(out: &mut Out, r: &mut StdRng, n: usize) {
             let dy_s = (sx[1] - sx[0]) * 1e-7;
             let dy_g = (gx[1] - gx[0]) * 1e-7;
             // the same point in other input units
-            let du = v.rate.associated_distance_unit();
+            let du = rate.associated_distance_unit();
+            let other = if matches!(msu, SpeedUnit::KilometersPerHour) { SpeedUnit::MilesPerHour } else { SpeedUnit::KilometersPerHour };
             let y_units = interp
-                .predict((SpeedUnit::MilesPerHour.convert(&Speed::new(s), &SpeedUnit::KilometersPerHour), SpeedUnit::KilometersPerHour),
+                .predict((msu.convert(&Speed::new(s), &other), other),
                          (GradeUnit::Decimal.convert(&Grade::new(g), &GradeUnit::Percent), GradeUnit::Percent), (Distance::new(1.0), du))
                 .map(|(e, _)| e.as_f64()).map_err(|e| e.to_string());
             out.event(json!({"ev": "ISG", "ok": y.is_ok(), "y": res(y), "corners": corners, "on_grid": on_grid,
